@@ -25,6 +25,26 @@ UNITS = []
 TARGET = 'xlcalculator.tokenizer:ExcelParser.getTokens'
 
 
+STACK_TOP = ['subexpression']          # what the innermost open construct is (read by _step_call; set by the units that care)
+
+
+def _with_top(top):
+    def call(it, fn, *a):
+        STACK_TOP[0] = top
+        try:
+            return _step_call(it, fn, *a)
+        finally:
+            STACK_TOP[0] = 'subexpression'
+
+    def native(fn, *a):
+        STACK_TOP[0] = top
+        try:
+            return _step_native(fn, *a)
+        finally:
+            STACK_TOP[0] = 'subexpression'
+    return call, native
+
+
 def _step_call(it, fn, formula, offset, token, in_string, in_path, in_range, in_error):
     from xlcalculator import tokenizer
     f = tokenizer.ExcelParser.getTokens
@@ -36,8 +56,12 @@ def _step_call(it, fn, formula, offset, token, in_string, in_path, in_range, in_
         raise Unsupported('the scan loop of getTokens is no longer a single `while not EOF()` loop: the step contracts do not apply')
     main = loops[0]
     tokens, stack = tokenizer.f_tokens(), tokenizer.f_tokenStack()
-    stack.push(tokenizer.f_token('F', 'function', 'start'))
-    stack.push(tokenizer.f_token('', 'subexpression', 'start'))
+    if STACK_TOP[0] == 'function':
+        stack.push(tokenizer.f_token('', 'subexpression', 'start'))
+        stack.push(tokenizer.f_token('F', 'function', 'start'))
+    else:
+        stack.push(tokenizer.f_token('F', 'function', 'start'))
+        stack.push(tokenizer.f_token('', 'subexpression', 'start'))
     env = Env({'self': tokenizer.ExcelParser(), 'formula': formula, 'offset': offset, 'token': token, 'inString': in_string,
                'inPath': in_path, 'inRange': in_range, 'inError': in_error, 'tokens': tokens, 'tokenStack': stack},
               {}, f.__globals__, func=f)
@@ -322,3 +346,71 @@ UNITS.append(Unit(
     cases=[Case('a letter, digit, ".", "_", "$", ":", "!" joins the pending token; nothing is emitted; one character consumed',
                 lambda *a: True, _accumulate)],
     call=_step_call, native_call=_step_native, cross_key=_key, timeout_ms=20000))
+
+
+def _close_step(top):
+    def ens(formula, offset, token, s, p, r, e, out):
+        if out.kind != 'ret':
+            return False
+        o = out.value
+        em, nonempty = _flush(o, token)
+        conj = [spec.eq(o['offset'], offset + 1), spec.eq(o['token'], '')]
+        stop = em[-1] if em else None
+        if stop is None or stop[1] != top or stop[2] != 'stop':
+            return False
+        if len(em) == 2:
+            conj += [nonempty, spec.eq(em[0][0], token), em[0][1] == 'operand']
+        elif len(em) == 1:
+            conj.append(Not(nonempty))
+        else:
+            return False
+        return And(*conj)
+    return ens
+
+
+def _comma_step(top):
+    def ens(formula, offset, token, s, p, r, e, out):
+        if out.kind != 'ret':
+            return False
+        o = out.value
+        em, nonempty = _flush(o, token)
+        conj = [spec.eq(o['offset'], offset + 1), spec.eq(o['token'], '')]
+        # [operand(token)]? then the separator token, then (when another comma follows) one placeholder operand for the omitted argument
+        doubled = spec.eq(_next(formula, offset), ',')
+        want_sep = ('argument', None) if top == 'function' else ('operator-infix', 'union')
+        kinds = [(t[1], t[2]) for t in em]                      # token types / subtypes are concrete strings
+        seq = list(em)
+        if kinds and kinds[0][0] == 'operand' and kinds[0][1] != 'none':
+            conj += [nonempty, spec.eq(seq[0][0], token)]
+            seq, kinds = seq[1:], kinds[1:]
+        else:
+            conj.append(Not(nonempty))
+        if not kinds or kinds[0][0] != want_sep[0] or (want_sep[1] is not None and kinds[0][1] != want_sep[1]):
+            return False
+        conj.append(spec.eq(seq[0][0], ','))
+        rest = kinds[1:]
+        if len(rest) == 0:
+            conj.append(Not(doubled))
+        elif rest == [('operand', 'none')]:
+            conj.append(doubled)
+        else:
+            return False
+        return And(*conj)
+    return ens
+
+
+for _top in ('subexpression', 'function'):
+    _c, _n = _with_top(_top)
+    UNITS.append(Unit(
+        id=f'C02/tokenizer.getTokens/close_parenthesis_step[{_top}]', target=TARGET, inputs=_state(['(1)', 'SUM(1)', '(A1)+2', 'x)']),
+        requires=_normal_req([')']),
+        cases=[Case('")" flushes the pending operand and closes the innermost open construct with exactly one stop token of its kind; one character consumed',
+                    lambda *a: True, _close_step(_top))],
+        call=_c, native_call=_n, cross_key=_key, timeout_ms=20000))
+    UNITS.append(Unit(
+        id=f'C02/tokenizer.getTokens/comma_step[{_top}]', target=TARGET, inputs=_state(['SUM(1,2)', 'IF(A1,,2)', '(A1,B1)', 'a,b']),
+        # (a well-formed formula does not END in a comma - the same fact about well-formed input as in the index-safety unit)
+        requires=lambda formula, offset, token, *f: And(_normal_req([','])(formula, offset, token, *f), offset + 1 < S.length(formula)),
+        cases=[Case('"," flushes the pending operand and becomes exactly one argument separator inside a function (a union operator elsewhere); an immediately following comma adds one placeholder for the omitted argument',
+                    lambda *a: True, _comma_step(_top))],
+        call=_c, native_call=_n, cross_key=_key, timeout_ms=20000))
